@@ -11,8 +11,8 @@ verus! {
 //@include prelude/fjall_types.rs
 //@include prelude/paths.rs
 //@type RwLockWriteGuard<'_,Keyspaces> => KsWriteGuard
-//@guards keyspaces.write() param:keyspaces
-//@world keyspaces.write lock.get seqno_generator.next inner.ingestion ingestion.write ingestion.finish visible_seqno.fetch_max lock.remove keyspaces.insert self.maintenance shim_write_tombstones shim_name_row drop
+//@guards keyspaces.write() keyspaces.read() param:keyspaces
+//@world .remove keyspaces.write keyspaces.read lock.get seqno_generator.next inner.ingestion ingestion.write ingestion.finish visible_seqno.fetch_max lock.remove keyspaces.insert self.maintenance shim_write_tombstones shim_name_row drop
 
 /// one row of the meta tree, as far as this unit looks: whose it is and whether it is a tombstone
 pub struct RowG { pub key: Seq<u8>, pub value: Seq<u8>, pub tomb: bool }
@@ -20,6 +20,7 @@ pub struct World {
     pub journal_locked: bool,          // the journal mutex is held by the thread under analysis
     pub recovering: bool,
     pub ks_wlocked: bool,              // the keyspace dictionary's write lock is held by the thread under analysis
+    pub ks_rlocked: bool,              // ... its read lock (shared with other readers, e.g. batches applying their items)
     pub dict: Map<Seq<char>, u64>,     // the keyspace dictionary (name -> id)
     pub seqno: nat, pub visible: nat,  // the shared counters
     pub staged: Seq<RowG>,             // rows written into the open meta ingestion, in order
@@ -51,9 +52,31 @@ impl KsLock {
     // RwLock::write on the keyspace dictionary: blocks until no reader (a batch applying its items) and no writer holds it
     #[verifier::external_body]
     pub fn write(&self, Tracked(w): Tracked<&mut World>) -> (r: KsLockResult)
-        requires !old(w).ks_wlocked,
+        requires !old(w).ks_wlocked && !old(w).ks_rlocked,
         ensures *final(w) == (World { ks_wlocked: true, ..*old(w) }),
     { unimplemented!() }
+}
+pub struct KsReadLockResult { pub dummy: u8 }
+pub struct KsReadGuard { pub dummy: u8 }
+impl KsLock {
+    // RwLock::read on the keyspace dictionary: shared with the batches that are applying their items
+    #[verifier::external_body]
+    pub fn read(&self, Tracked(w): Tracked<&mut World>) -> (r: KsReadLockResult)
+        requires !old(w).ks_wlocked,
+        ensures *final(w) == (World { ks_rlocked: true, ..*old(w) }),
+    { unimplemented!() }
+}
+impl KsReadLockResult { #[verifier::external_body] pub fn expect(self, msg: &str) -> (r: KsReadGuard) { unimplemented!() } }
+impl KsReadGuard {
+    #[verifier::external_body]
+    pub fn get(&self, name: &str, Tracked(w): Tracked<&mut World>) -> (r: Option<&Keyspace>)
+        requires old(w).ks_rlocked,
+        ensures *final(w) == *old(w), r is Some == old(w).dict.dom().contains(name@), r matches Some(k) ==> k.id == old(w).dict[name@],
+    { unimplemented!() }
+}
+impl ShimDrop for KsReadGuard {
+    open spec fn drop_pre(&self, w: World) -> bool { w.ks_rlocked }
+    open spec fn drop_post(&self, o: World, n: World) -> bool { n == (World { ks_rlocked: false, ..o }) }
 }
 impl KsLockResult { #[verifier::external_body] pub fn expect(self, msg: &str) -> (r: KsWriteGuard) { unimplemented!() } }
 impl KsWriteGuard {
@@ -92,9 +115,10 @@ impl SequenceNumberCounter {
     #[verifier::external_body]
     pub fn fetch_max(&self, v: u64, Tracked(w): Tracked<&mut World>) -> (r: u64)
         requires self.which@ == 1,
-            vis_ok(*old(w)), // [C06:P-VIS-advance-under-lock]
             // a batch applies its items under the dictionary READ lock: while the write lock is held no batch is inside its apply loop
+            // (stated before P-VIS: a failed clause is assumed for the ones after it)
             vis_ok(*old(w)) || old(w).ks_wlocked, // [C06:publish-excludes-batches-inside-their-apply-loop]
+            vis_ok(*old(w)), // [C06:P-VIS-advance-under-lock]
         ensures *final(w) == (World { visible: if v > old(w).visible { v as nat } else { old(w).visible }, ..*old(w) }),
     { unimplemented!() }
 }
@@ -117,18 +141,19 @@ impl MetaIngestion {
     // upgrade_version) advances the shared visible seqno
     #[verifier::external_body]
     pub fn finish(self, Tracked(w): Tracked<&mut World>) -> (r: Result<(), lsm_tree::Error>)
-        requires vis_ok(*old(w)), // [C06:P-VIS-version-change]
-            vis_ok(*old(w)) || old(w).ks_wlocked, // [C06:version-change-excludes-batches-inside-their-apply-loop]
+        requires vis_ok(*old(w)) || old(w).ks_wlocked, // [C06:version-change-excludes-batches-inside-their-apply-loop]
+            vis_ok(*old(w)), // [C06:P-VIS-version-change]
         ensures r is Ok ==> *final(w) == (World { meta_rows: old(w).meta_rows + old(w).staged, tombs_for: old(w).tombs_for + old(w).tombs_staged_for, staged: Seq::empty(), tombs_staged_for: Seq::empty(),
                     version_changes: old(w).version_changes + 1, ..*old(w) }),
                 r is Err ==> *final(w) == (World { staged: Seq::empty(), tombs_staged_for: Seq::empty(), ..*old(w) }),
     { unimplemented!() }
 }
 // R-ABS shim for the block of remove_keyspace that builds the `c<id>` prefix, scans it and writes a tombstone for every
-// config row and for the `n<id>` name row (ASSUMED: exactly the rows of that keyspace id)
+// config row and for the `n<id>` name row (ASSUMED: exactly the rows of the id the dictionary holds for `name`)
 #[verifier::external_body]
-pub fn shim_write_tombstones(ingestion: &mut MetaIngestion, inner: &AnyTree, id: InternalKeyspaceId, Tracked(w): Tracked<&mut World>) -> (r: Result<(), Error>)
-    ensures r is Ok ==> *final(w) == (World { tombs_staged_for: old(w).tombs_staged_for.push(id), ..*old(w) }), r is Err ==> *final(w) == *old(w),
+pub fn shim_write_tombstones(ingestion: &mut MetaIngestion, inner: &AnyTree, name: &str, Tracked(w): Tracked<&mut World>) -> (r: Result<(), Error>)
+    requires old(w).dict.dom().contains(name@),
+    ensures r is Ok ==> *final(w) == (World { tombs_staged_for: old(w).tombs_staged_for.push(old(w).dict[name@]), ..*old(w) }), r is Err ==> *final(w) == *old(w),
 { unimplemented!() }
 // R-ABS shim for the expression statement of create_keyspace that builds the `n<id>` -> name row and pushes it
 pub uninterp spec fn name_row(id: u64, name: Seq<char>) -> RowG;
@@ -168,11 +193,11 @@ impl MetaKeyspace {
 pub struct ResultUnit { pub dummy: u8 }
 
 //@extract src/meta_keyspace.rs :: MetaKeyspace :: remove_keyspace world props=C12+C06
-//@abstract let pfx: Vec<u8> => shim_write_tombstones(&mut ingestion, &self.inner, keyspace.id)?;
+//@abstract let pfx: Vec<u8> => shim_write_tombstones(&mut ingestion, &self.inner, name)?;
 //@contract
-    requires !old(w).ks_wlocked, self.seqno_generator.which@ == 0, self.visible_seqno.which@ == 1,
+    requires !old(w).ks_wlocked, !old(w).ks_rlocked, self.seqno_generator.which@ == 0, self.visible_seqno.which@ == 1,
     ensures
-        !final(w).ks_wlocked, // [C12:dictionary-lock-released]
+        !final(w).ks_wlocked && !final(w).ks_rlocked, // [C12:dictionary-lock-released]
         // the name leaves the dictionary only together with tombstones for every meta row of its id
         r is Ok && old(w).dict.dom().contains(name@) ==> final(w).dict == old(w).dict.remove(name@)
             && final(w).tombs_for =~= old(w).tombs_for.push(old(w).dict[name@]), // [C12:deleted-name-and-its-meta-rows-go-together]
